@@ -229,7 +229,7 @@ class BuiltinMixin(object):
   def bi_bool(self, args, kw, st):
     if not args:
       return VBool(False)
-    return VBool(truthy(args[0], st))
+    return VBool(self.truth(args[0], st))
 
   def bi_callable(self, args, kw, st):
     return self.pure_app('callable', [args[0]], 'bool', st)
